@@ -39,12 +39,25 @@ def opAssemble (j : Json) : Except String Json := do
         else []
       pure (Json.mkObj (base ++ derivs))
 
+/-- one stochastic step on integer states: add `counts[j]` copies of column `j` (C10 `applyCounts`) -/
+def applyCountsI (x : List Int) (cols : List (List Int)) (counts : List Int) : List Int :=
+  (cols.zip counts).foldl (fun acc cc => List.zipWith (fun a v => a + v * cc.2) acc cc.1) x
+
+def opApplyCounts (j : Json) : Except String Json := do
+  let x0 ← listOfJson Json.getInt? (fld j "x0")
+  let cols ← listOfJson (listOfJson Json.getInt?) (fld j "cols")
+  let steps ← listOfJson (listOfJson Json.getInt?) (fld j "steps")
+  let path := steps.scanl (fun x c => applyCountsI x cols c) x0
+  pure (Json.mkObj [("path", Json.arr (path.map intsToJson).toArray),
+                    ("sums", intsToJson (path.map List.sum))])
+
 /-- op handlers of this file; other areas add their own `handleX : String → Json → Option (Except String Json)`
 in `Pygom/Ops<Area>.lean` and are listed in `Pygom/Dispatch.lean` -/
 def handleCore (op : String) (j : Json) : Option (Except String Json) :=
   match op with
   | "ping" => some (pure (Json.mkObj [("pong", true)]))
   | "assemble" => some (opAssemble j)
+  | "apply_counts" => some (opApplyCounts j)
   | _ => none
 
 end Pygom
